@@ -856,6 +856,7 @@ func c06(c *Ctx) {
 		workers = 2 // 16 shards run side by side
 	}
 	var leaked atomic.Int64 // goroutines abandoned after a timeout and still running; they may be spinning
+	var gaveUp atomic.Bool  // in-process scheduling has been stopped
 	runOne := func(j job, e int, budget time.Duration, ops *[]c06Op) (msg string, tree, timedOut bool) {
 		type r2 struct {
 			msg  string
@@ -896,14 +897,19 @@ func c06(c *Ctx) {
 				out.suspects = append(out.suspects, e)
 				continue
 			}
+			if gaveUp.Load() {
+				out.skipped = true
+				break
+			}
 			if leaked.Load() >= 6 {
 				// too many abandoned goroutines are still running.  On a loaded machine they finish
 				// eventually (the counter drops again); goroutines that spin never do: wait a while,
 				// then schedule no more in-process work
-				for w := 0; w < 120 && leaked.Load() >= 6; w++ {
+				for w := 0; w < 90 && leaked.Load() >= 6 && !gaveUp.Load(); w++ {
 					time.Sleep(time.Second)
 				}
 				if leaked.Load() >= 6 {
+					gaveUp.Store(true) // decided once: the other workers do not wait again
 					out.skipped = true
 					break
 				}
